@@ -277,6 +277,11 @@ def gen_extraction_programs(r, n):
         dests = ["out/x", "out/y", "out/nodir/sub/z"]
         if r.chance(0.4):
             ops.append(f"put out/y {hx(r.randbytes(r.pick([3, 200, 20000])) + b'OLD')}")
+        # the content path is a symlink to a file outside the cache that holds the same bytes (what link_to makes,
+        # and what a de-duplicating tool leaves): extracting the entry ONTO that very file must leave it alone
+        if r.chance(0.25):
+            ops += [f"put ext/blob{i} {hx(d)}", f"del {content_path(algo, d)}", f"symlink {content_path(algo, d)} abs:ext/blob{i}"]
+            dests = dests + [f"ext/blob{i}", f"ext/blob{i}"]
         steps = []
         gone = False
         for j in range(r.randrange(3, 8)):
